@@ -207,36 +207,44 @@ def check(ctx, rep):
         rep.ob("R-CANCEL", "%s.cancel: all four cases present" % ci.name, {"cancelled", "done", "cancel-True"} <= seen, "cases found: %s" % sorted(seen), where_of(cm))
 
     # -------------------------------------------------------------------- R-NOTIFY
-    out = prog.cls("OutputFuture")
-    cm = out.methods.get("cancel")
-    rep.require(cm is not None, "OutputFuture.cancel not found")
-    ps, it = ctx.paths(cm, out, depth=0)
-    kinds = set()
-    for p in ps:
-        if p.status == "raise":
-            rep.ob("R-NOTIFY", "OutputFuture.cancel never raises", False, fmt(p.value), where_of(cm), trace_of(p))
+    # classes that extend the stdlib Future directly (not through _Future) and override cancel(): output futures
+    outs = []
+    for ci in prog.classes.values():
+        if ci is fut or fut in ci.mro() or "cancel" not in ci.methods:
             continue
-        stdc = [e for e in p.calls() if q.is_super_call(e, "cancel")]
-        notif = [e for e in p.calls() if q.call_name(e) == "set_running_or_notify_cancel"]
-        rep.require(len(stdc) == 1, "OutputFuture.cancel: expected one stdlib cancel per path")
-        res = ("call", stdc[0].d["func"], stdc[0].d["args"], stdc[0].d["kwargs"], None)
-        succ = p.assume.get(res)
-        if not succ:
-            kinds.add("failed")
-            rep.ob("R-NOTIFY", "OutputFuture.cancel: failed cancel -> False", p.value == ("const", False) and not notif, "", where_of(cm), trace_of(p))
-            continue
-        flags = [(e.d[0], e.d[1], e) for e in p.evs("branch") if q.self_field(e.d[0])]
-        stores = [e for e in p.evs("store") if q.self_field(e.d["target"]) and e.d["value"] == ("const", True)]
-        already = any(v for t, v, e in flags)
-        kinds.add("again" if already else "first")
-        if already:
-            rep.ob("R-NOTIFY", "OutputFuture.cancel: repeated cancel does not notify again", not notif and p.value == ("const", True), "set_running_or_notify_cancel would raise on a second call", where_of(cm), trace_of(p))
-        else:
-            ok = len(notif) == 1 and len(stores) == 1 and flags and stores[0].d["target"] == flags[0][0] and p.value == ("const", True)
-            lk = [l for l in notif[0].locks] if notif else []
-            same = ok and bool(lk) and all(l in flags[0][2].locks for l in lk) and all(l in stores[0].locks for l in lk)
-            rep.ob("R-NOTIFY", "OutputFuture.cancel: first successful cancel notifies once, flag test-and-set under one lock", ok and same, "the notified flag must be tested, set and the notification issued under one lock, exactly once", where_of(cm), trace_of(p))
-    rep.require(kinds == {"failed", "first", "again"}, "OutputFuture.cancel: expected failed / first / repeated paths, found %s" % sorted(kinds))
+        if any(not isinstance(b, ClassInfo) and str(b).endswith("Future") for b in ci.mro()):
+            outs.append(ci)
+    rep.count("stdlib-Future subclasses overriding cancel()", len(outs), 1)
+    for out in outs:
+        cm = out.methods["cancel"]
+        own = set(m.key for m in out.methods.values())
+        ps, it = ctx.paths(cm, out, depth=3, inline=lambda callee, ev, path: callee.key in own)
+        kinds = set()
+        N = out.name
+        for p in ps:
+            if p.status == "raise":
+                rep.ob("R-NOTIFY", "%s.cancel never raises" % N, False, fmt(p.value), where_of(cm), trace_of(p))
+                continue
+            stdc = [e for e in p.calls() if q.is_super_call(e, "cancel")]
+            notif = [e for e in p.calls() if q.call_name(e) == "set_running_or_notify_cancel"]
+            rep.require(len(stdc) == 1, "%s.cancel: expected one stdlib cancel per path" % N)
+            succ = q.truth_of(p, q.result_of(stdc[0]))
+            if not succ:
+                kinds.add("failed")
+                rep.ob("R-NOTIFY", "%s.cancel: failed cancel -> False" % N, p.value in (("const", False), q.result_of(stdc[0])) and not notif, "", where_of(cm), trace_of(p))
+                continue
+            flags = [(t, v, e) for t, v, e in q.atoms(p) if q.self_field(t)]
+            stores = [e for e in p.evs("store") if q.self_field(e.d["target"]) and e.d["value"] == ("const", True)]
+            already = any(v for t, v, e in flags)
+            kinds.add("again" if already else "first")
+            if already:
+                rep.ob("R-NOTIFY", "%s.cancel: repeated cancel does not notify again" % N, not notif and p.value in (("const", True), q.result_of(stdc[0])), "set_running_or_notify_cancel would raise on a second call", where_of(cm), trace_of(p))
+            else:
+                ok = len(notif) == 1 and len(stores) == 1 and flags and stores[0].d["target"] == flags[0][0] and p.value in (("const", True), q.result_of(stdc[0]))
+                lk = [l for l in notif[0].locks] if notif else []
+                same = ok and bool(lk) and all(l in flags[0][2].locks for l in lk) and all(l in stores[0].locks for l in lk)
+                rep.ob("R-NOTIFY", "%s.cancel: first successful cancel notifies once, flag test-and-set under one lock" % N, ok and same, "the notified flag must be tested, set and the notification issued under one lock, exactly once", where_of(cm), trace_of(p))
+        rep.require(kinds == {"failed", "first", "again"}, "%s.cancel: expected failed / first / repeated paths, found %s" % (N, sorted(kinds)))
 
     # allocation sites: plain stdlib futures must be terminal before they escape; pending outputs must be OutputFuture/_Future
     nalloc = 0
